@@ -5,10 +5,12 @@ import ParanoidModel.Driver.ClosedForm
 import ParanoidModel.Driver.Rng
 import ParanoidModel.Driver.BM
 import ParanoidModel.Driver.BitSeq
+import ParanoidModel.Driver.Bookkeeping
+import ParanoidModel.Driver.Suite
 open Paranoid.Driver
 
 /-- all dispatchers, tried in order. -/
-def dispatchers : List Dispatcher := [basicOps, ntheoryOps, factoringOps, rsaCheckOps, ecdsaOps, closedFormOps, rngOps, bmOps, bitseqOps]
+def dispatchers : List Dispatcher := [basicOps, ntheoryOps, factoringOps, rsaCheckOps, ecdsaOps, closedFormOps, rngOps, bmOps, bitseqOps, bookkeepingOps, suiteOps]
 
 def respond (regs : List (String × String)) (line : String) : String :=
   let toks := ((line.trimAscii.toString.splitOn " ").filter (· ≠ "")).map fun t =>
